@@ -126,6 +126,9 @@ func Build(g *gram.Grammar, opt Options) *Built {
 			return f
 		}
 		bind := func(s *combinator.Sequence) parsley.Parser {
+			if g.NamedSeq {
+				s = s.Name("alt" + strconv.Itoa(e.ID))
+			}
 			if opt.Interp != nil {
 				return s.Bind(opt.Interp)
 			}
